@@ -28,7 +28,8 @@ EXTENDS Naturals, Sequences
 CONSTANTS MaxC,     \* number of data PDUs the central sends           (bounds Next only)
           MaxP,     \* number of data PDUs the peripheral commits       (bounds Next only)
           RxCap,    \* model checking: receive buffer holds RxCap PDUs  (Next only)
-          TxCap     \* model checking: transmit buffer holds TxCap PDUs (Next only)
+          TxCap,    \* model checking: transmit buffer holds TxCap PDUs (Next only)
+          RoomRule  \* BOOLEAN: demand that an *empty* buffer accepts a PDU (progress half of C15)
 
 VARIABLES
     \* ---- central (environment) ----
@@ -72,15 +73,13 @@ Init ==
 
 \* r = the transmit buffer had room. It must have room when nothing is waiting for an acknowledgement.
 Commit(p, r) ==
-    /\ air = <<>>
     /\ p.id = Len(committed) + 1 /\ p.len > 0 /\ p.llid \in 1..3
-    /\ (~r) => Len(committed) > txCtr
+    /\ (~r /\ RoomRule) => Len(committed) > txCtr
     /\ committed' = IF r THEN Append(committed, p) ELSE committed
     /\ UNCHANGED <<cvars, pOut, pSent, pSn, pNesn, stored, delivered, rxCtr, txCtr, air>>
 
 \* next_received() / free_received(): p = the oldest stored PDU, or Empty when there is none
 Read(p) ==
-    /\ air = <<>>
     /\ IF stored = <<>>
        THEN p = Empty /\ UNCHANGED <<stored, delivered>>
        ELSE p = Head(stored) /\ stored' = Tail(stored) /\ delivered' = Append(delivered, p)
@@ -129,7 +128,7 @@ Exchange(c, out, ackC, dataC) ==
     /\ CentralSends(c)
     /\ out \in Outcomes
     /\ out = "mic"   => IsData(c.pdu)            \* an empty PDU has no MIC
-    /\ out = "nobuf" => stored # <<>>            \* an empty receive buffer has room for a PDU
+    /\ (out = "nobuf" /\ RoomRule) => stored # <<>>     \* an empty receive buffer has room for a PDU
     /\ cCur'  = <<c.pdu>>
     /\ cData' = IF cCur = <<>> /\ IsData(c.pdu) THEN Append(cData, c.pdu) ELSE cData
     /\ IF out = "lost"
